@@ -194,6 +194,16 @@ static int h_event(coap_session_t *s, const coap_event_t ev) {
   return 0;
 }
 
+/* The library's receive buffer is a local array of coap_read_session(): dead between two read events, and shared by all sessions.
+ * Overwrite the dead part of the stack between events, the way any other work of the process would. */
+static void __attribute__((noinline)) scribble(void) {
+  uint8_t junk[40 * 1024];
+  memset(junk, 0xA5, sizeof(junk));
+  __asm__ volatile("" : : "r"(junk) : "memory");        /* the stores are not dead as far as the compiler can tell */
+}
+static int round_(void) { scribble(); return sim_round(); }
+#define sim_round round_
+
 static void run_case(int id, int max) {
   coap_proto_t proto = ws ? COAP_PROTO_WS : COAP_PROTO_TCP;
   coap_address_t a;
